@@ -116,15 +116,11 @@ PROPS = {
     "C12": dict(
         tables=["parse"],
         determined=True,
-        technique="Lean 4 theorem by functional induction over the parsing machine: strict success implies identical success under every option record; differential execution under all four option records incl. every sequence of <= 3-4 string elements",
-        level_text=("PARTIAL proof. Proved in Lean for all inputs (well-formed or failing streams, all option records): the conservative-extension clause — whatever strict mode accepts is accepted by every "
-                    "option record with the identical value and code map (no option-dependent branch is taken on a successful strict run) — and the regenerated presets (strict = default = all false, flexible = all true). "
-                    "The exactness clauses (only unpaired high / lone low surrogate escapes are relaxed, one U+FFFD each, pairs still combine, independence of the two options; C12_exact) are stated but not yet proved in Lean; "
-                    "they are covered by differential execution of the full result under all four option records against the model and against an independent two-pass reference (split, then combine) "
-                    "exhaustively over every sequence of <= 3 (thorough 4) string elements from {high escapes, low escapes, ordinary escapes, raw BMP/non-BMP chars, truncated escape} in value and key position, all 65,536 \\uXXXX, plus the C01 streams."),
+        technique='Lean 4 theorems: conservative extension for whole documents (no option-dependent branch on a strict-successful run) and exactness of the lenient semantics at the string scanner — for every option record, accepted string literals are exactly an explicit extension of the RFC 8259 string production by two one-option-each element kinds, each denoting one U+FFFD (both directions, by induction over the scanner loop with a pending-high state); tied to the code by exhaustive differential execution over element sequences under all four option records and an independent two-pass reference',
+        level_text=('Proof on the model of both sentences of the property. (1) Conservative extension, whole documents: C12_conservative — for every character stream (well-formed or failing) and every option record, whatever strict mode accepts is accepted with the identical value and code map (run_mono: no option-dependent branch is taken on a successful strict run); presets regenerated from the source (strict = default = all false, flexible = all true). (2) Exactness, at the only place where the options are consulted — the string scanner, values and keys alike: C12_string_exact — under ANY option record the scanner accepts a literal and returns str iff the literal is an LString o denoting str, where LString o (Spec/Lenient.lean) is the RFC 8259 string production extended by exactly two element kinds: a high-surrogate escape not directly followed by a low-surrogate escape (iff accept_truncated_surrogate_pair) and a low-surrogate escape not preceded by a high one (iff accept_invalid_codepoints), each denoting exactly one U+FFFD; a high escape directly followed by a low escape is one scalar under every option record. Both directions, every string, no bound (strLoopO_sound / strLoopO_complete: induction over the scanner loop including the pending-high state; strStepO_trunc: with the truncation option a pending high followed by anything but a low escape behaves exactly as U+FFFD followed by that input). C12_strict_adds_nothing, C12_monotone (options independent and monotone), C12_lone_high_needs_trunc. Not a separate Lean theorem: the lifting of (2) from strings to whole documents (the container layer never reads the options; it is the same code under all records). Tie to /repo: the full result under all four option records is compared with the model and with an independent two-pass reference exhaustively over every sequence of <= 3 (thorough 4) string elements from {high escapes, low escapes, ordinary escapes, raw BMP/non-BMP chars, truncated escape} in value and key position, all 65,536 \\uXXXX, plus the C01 streams.'),
         level_note="Trusted: Lean kernel; model validated by correspondence; the harness's two-pass reference for the lenient semantics.",
         rule="request = text + option record, full result projection (value, code map, error). Non-trivial = accepted; distinct request lines",
-        strength="partial: conservative extension proved; exactness tested exhaustively within bounds",
+        strength='conservative extension proved for documents; exact lenient semantics proved for every string and option record; document-level lifting of exactness by the (option-free) container layer; tie to the code by correspondence',
         trusted_base=COMMON_TRUST + ["harness reference (refjson.rs) for the lenient surrogate policy"],
         assumptions=[],
     ),
